@@ -103,7 +103,7 @@ def run(R, tier):
                           '-3..6, plus random decimals of 5-15 significant digits; supplied as direct helper arguments, cells, overrides and literals; '
                           'non-trivial = has fractional digits or a negative digit count; distinct by recipe')
     C.proof_obligations(R, 'theories/Props/C16.v', 'Props.C16', TARGETS)
-    if any('build failed' in b for b in R.broken):
+    if any('Coq build failed' in b for b in R.broken):
         return
     n = 800 if tier == 'quick' else 12000
     recipes = corpus() + gen_recipes(R.rng, n)
